@@ -20,7 +20,7 @@ _spec.loader.exec_module(dbccheck)
 
 def run(ctx):
     ctx.level = "proof"
-    status = vlib.proof_status(PID, extra_targets=["C08/Extract.v"])
+    status = vlib.proof_status(PID, extra_targets=["C08/Extract.v", "C09/Extract.v"])
     ctx.proof_gate(status)
     drv = dbccheck.build_driver()
     exe, blog = dbccheck.build_harness(ctx, "c09")
@@ -55,6 +55,15 @@ def run(ctx):
         ctx.coverage.update({"evaluations": 0})
         return
     summ = dbccheck.parse_summary(os.path.join(out, "summary.txt"))
+    # importer range-expansion loop vs the Coq skeleton: records appended to the case file
+    skel = os.path.join(out, "skeleton.txt")
+    rcs, logs = vlib.sh([exe, "skeleton", "-seed", str(ctx.seed), "-n", "400" if ctx.tier == "quick" else "20000", "-out", skel],
+                        env=dbccheck.harness_env(), timeout=600)
+    if rcs == 0 and os.path.exists(skel):
+        with open(cases, "a") as fa:
+            fa.write(open(skel).read())
+    else:
+        ctx.violation("harness-run-failed", "skeleton run failed: " + logs[-400:], {"log": logs[-2000:]}, found_input=False)
     # (1) panics, hangs, memory blow-ups, crashes, ill-positioned syntax errors: found inputs
     for head, detail in summ["fails"]:
         sig = head[0]
@@ -127,6 +136,7 @@ def run(ctx):
         "distribution": summ["hist"],
         "outcome_classes": summ["class"],
         "excluded_wide_mux": summ.get("excluded-wide-mux", 0),
+        "skeleton_cases_compared": dbccheck.last_skeleton,
         "model_mismatches": mism,
         "model_mismatch_kinds": {k: len(v) for k, v in by_kind.items()},
         "failures": [h[0] for h, _ in summ["fails"]],
@@ -137,7 +147,7 @@ def run(ctx):
             "axioms: none (Print Assumptions: Closed under the global context)" if not status["axioms"] else "axioms: " + ", ".join(status["axioms"]),
             "extraction (ExtrOcamlBasic, ExtrOcamlString) + OCaml 4.13.1 + props/C08/driver/c08_driver.ml",
             "Go harness props/C08/harness/cmd/c09 (generators, child-process isolation, classification, shrinking) and overlay hook props/C08/overlay/verif_dbc.go",
-            "the theorems are about the model coq/C08/Dbc{Lex,Parse}.v (hand-written restatement of dbc/{scanner,parser}.go, tied by the record comparison); the importer is not modelled here: its totality is exhibited by execution only",
+            "the theorems are about the model coq/C08/Dbc{Lex,Parse}.v (hand-written restatement of dbc/{scanner,parser}.go, tied by the record comparison) and, for the importer, about the skeleton coq/C09/ImportSkeleton.v of its two counter loops (the range expansion is compared with importMuxSignal on generated range lists; every other loop ranges over a slice or map); the rest of the importer is not modelled here: its totality is exhibited by execution only",
             "strconv.ParseFloat / unicode.IsDigit: oracle data per case",
         ],
     })
